@@ -57,6 +57,8 @@ func (g *gen) specSort(name string, t types.Type) string {
 		return "Bool"
 	case "string", "seq":
 		return "Str"
+	case "intarray":
+		return "(Array Int Int)"
 	}
 	if t != nil {
 		return g.ctx.sortOf(t)
@@ -68,7 +70,7 @@ func (g *gen) ghostDecl(gv GhostVar) (types.Type, string, error) {
 	t, err := g.prog.specType(gv.Type, g.fn)
 	if err != nil {
 		switch gv.Type {
-		case "seq", "nat":
+		case "seq", "nat", "intarray":
 			return nil, g.specSort(gv.Type, nil), nil
 		}
 		return nil, "Int", err
@@ -311,7 +313,7 @@ func (g *gen) derefLocQuiet(p Val, pt *types.Pointer) *Loc {
 		return p.L
 	}
 	t := pt.Elem()
-	switch u := t.Underlying().(type) {
+	switch u := locUnder(t).(type) {
 	case *types.Struct:
 		return &Loc{Comp: "", Idx: []string{p.T}, Sort: g.ctx.sortOf(t), GoT: t}
 	case *types.Array:
@@ -483,7 +485,10 @@ func (g *gen) elabIndex(x *Expr, e *env) (Val, error) {
 		et := a.GoT.Underlying().(*types.Slice).Elem()
 		es := g.ctx.sortOf(et)
 		comp := g.ctx.elemComp(es)
-		return Val{T: "(select (select " + g.stGet(e.st, comp) + " (s.ref " + a.T + ")) (+ (s.off " + a.T + ") " + i.T + "))", S: es, GoT: et}, nil
+		return Val{T: "(select (select " + g.stGet(e.st, comp) + " (s.ref " + a.T + ")) (idx (s.off " + a.T + ") " + i.T + "))", S: es, GoT: et}, nil
+	}
+	if strings.HasPrefix(a.S, "(Array Int ") && a.GoT == nil {
+		return Val{T: "(select " + a.T + " " + i.T + ")", S: a.S[len("(Array Int ") : len(a.S)-1]}, nil
 	}
 	if a.GoT != nil {
 		switch u := a.GoT.Underlying().(type) {
@@ -517,7 +522,7 @@ func (g *gen) elabQuant(x *Expr, e *env) (Val, error) {
 		var gt types.Type = types.Typ[types.Int]
 		if b.Type != "" {
 			t, err := g.prog.specType(b.Type, g.fn)
-			if err != nil && b.Type != "seq" {
+			if err != nil && b.Type != "seq" && b.Type != "nat" && b.Type != "intarray" {
 				return Val{}, fmt.Errorf("binder %s: %v", b.Name, err)
 			}
 			s, gt = g.specSort(b.Type, t), t
@@ -659,6 +664,46 @@ func (g *gen) elabCall(x *Expr, e *env) (Val, error) {
 			return Val{}, err
 		}
 		return intVal(as[0].T), nil // mathematical: no wrap in specs
+	case "emod", "ediv":
+		as, err := args()
+		if err != nil {
+			return Val{}, err
+		}
+		op := "mod"
+		if x.S == "ediv" {
+			op = "div"
+		}
+		return intVal("(" + op + " " + as[0].T + " " + as[1].T + ")"), nil
+	case "arr":
+		// arr(s): the backing array of a slice as a mathematical array value
+		as, err := args()
+		if err != nil {
+			return Val{}, err
+		}
+		a := as[0]
+		if a.S != "Slice" || a.GoT == nil {
+			return Val{}, fmt.Errorf("arr() of non-slice")
+		}
+		es := g.ctx.sortOf(a.GoT.Underlying().(*types.Slice).Elem())
+		return Val{T: "(select " + g.stGet(e.st, g.ctx.elemComp(es)) + " (s.ref " + a.T + "))", S: "(Array Int " + es + ")"}, nil
+	case "idx":
+		as, err := args()
+		if err != nil {
+			return Val{}, err
+		}
+		return intVal("(idx " + as[0].T + " " + as[1].T + ")"), nil
+	case "off":
+		as, err := args()
+		if err != nil {
+			return Val{}, err
+		}
+		return intVal("(s.off " + as[0].T + ")"), nil
+	case "store":
+		as, err := args()
+		if err != nil {
+			return Val{}, err
+		}
+		return Val{T: "(store " + as[0].T + " " + as[1].T + " " + as[2].T + ")", S: as[0].S}, nil
 	case "wrap64":
 		as, err := args()
 		if err != nil {
